@@ -212,7 +212,12 @@ func c11race(cw *caseWriter, tag string, seed uint64) {
 	go func() { id, err := n.r.VerifTakeSnapshot(); done <- res{id, err} }()
 	time.Sleep(time.Duration(200+r.intn(1500)) * time.Microsecond)
 	// the configuration entry (index 4) and a command, both committed
+	// (in half of the runs plain commands: a snapshot below lastApplied is then allowed to complete)
+	withCfg := r.chance(1, 2)
 	cfgEntry := &raft.Log{Index: 4, Term: 3, Type: raft.LogConfiguration, Data: raft.EncodeConfiguration(mkConfig(cfg1))}
+	if !withCfg {
+		cfgEntry = mkLog(4, 3, 0, 304)
+	}
 	send(3, 3, []*raft.Log{cfgEntry, mkLog(5, 3, 0, 305)}, 5)
 	time.Sleep(time.Duration(r.intn(500)) * time.Microsecond)
 	close(n.fsm.gate)
@@ -230,9 +235,18 @@ func c11race(cw *caseWriter, tag string, seed uint64) {
 			m := metas[0]
 			obs = append(obs, m.Index, m.ConfigurationIndex, uint64(len(m.Configuration.Servers)))
 			wantIdx, want := uint64(1), cfg0
-			if m.Index >= 4 {
+			if m.Index >= 4 && withCfg {
 				wantIdx, want = 4, cfg1
 			}
+			// C11: every index above the newest snapshot is still in the log (compaction removes only what the snapshot covers)
+			logs.mu.Lock()
+			for idx := m.Index + 1; idx <= n.r.LastIndex(); idx++ {
+				if _, ok := logs.m[idx]; !ok {
+					cw.monitor("C11", tag, "index-neither-in-snapshot-nor-in-log", "newest snapshot at index %d, last index %d, index %d is in neither", m.Index, n.r.LastIndex(), idx)
+					break
+				}
+			}
+			logs.mu.Unlock()
 			got := encConfig(m.Configuration)
 			if m.ConfigurationIndex != wantIdx || !c15eqInts(got, encSrvs(want)) {
 				cw.monitor("C11", tag, "snapshot-configuration-is-not-that-of-its-index", "snapshot at index %d records configuration index %d with %d servers; the last configuration entry at or below %d is index %d with %d servers",
@@ -240,7 +254,7 @@ func c11race(cw *caseWriter, tag string, seed uint64) {
 			}
 		}
 	}
-	cw.emit(tag, 1011, []uint64{seed}, obs, out.err == nil)
+	cw.emit(tag, 1011, []uint64{seed, b2u(withCfg)}, obs, out.err == nil)
 }
 
 func runC11race(cw *caseWriter, tier string, seed uint64) {
